@@ -22,9 +22,14 @@ Eval(e, tags) ==
     [] e.op = "and" -> Eval(e.a, tags) /\ Eval(e.b, tags)
     [] e.op = "or"  -> Eval(e.a, tags) \/ Eval(e.b, tags)
 
-\* v = [useRe, reSet, useTags, expr, closure]
+\* v = [useRe, reSet, useTags, expr, closure, dup]
+\* dup: some scenarios of one feature / rule share their NAME (as the rows of an outline do);
+\* scenario ids stay unique (the harness marks every scenario with a tag `id_<S>`), the name
+\* regex sees the displayed name
+Disp(v, s) == IF ~v.dup THEN s
+              ELSE CASE s = "S2" -> "S1" [] s = "S4" -> "S3" [] s = "S7" -> "S6" [] OTHER -> s
 Accept(v, s) ==
-  IF v.useRe THEN s \in v.reSet
+  IF v.useRe THEN Disp(v, s) \in v.reSet
   ELSE IF v.useTags THEN Eval(v.expr, Range(InheritedTags(U, s)))
   ELSE s \in v.closure
 
